@@ -292,6 +292,36 @@ fn exec(obj: &mut Obj, line: &str) -> String {
                 is_almost(f(a1.unwrap()), f(a2.unwrap()), f(a3.unwrap())) as u8
             ),
             "fabs" => p(fabs(f(a1.unwrap()))),
+            "consts" => {
+                // the constants of one module as compiled (verif_consts hooks), `NAME=value` in a fixed order
+                let join = |v: &[(&'static str, u32)]| {
+                    v.iter()
+                        .map(|(n, x)| format!("{}={}", n, x))
+                        .collect::<Vec<_>>()
+                        .join(" ")
+                };
+                match a1.unwrap() {
+                    "adsr" => join(&synth_utils::adsr::verif_consts()),
+                    "lfo" => join(&synth_utils::lfo::verif_consts()),
+                    "quant" => join(&synth_utils::quantizer::verif_consts()),
+                    "midi" => join(&synth_utils::mono_midi_receiver::verif_consts()),
+                    "ribbon" => join(&synth_utils::ribbon_controller::verif_consts()),
+                    "glide" => {
+                        // the glide literals live inside functions: what a new processor stores
+                        let g = GlideProcessor::new(f(a2.unwrap()));
+                        let (mn, mx, ct) = g.verif_params();
+                        format!("GLIDE_MIN_FC={} GLIDE_MAX_FC={} GLIDE_CACHED_T_INIT={}", mn, mx, ct)
+                    }
+                    _ => "BADOP consts".to_string(),
+                }
+            }
+            // the public conversions of the clamping newtypes
+            "tp" => p(f32::from(synth_utils::adsr::TimePeriod::from(f(a1.unwrap())))),
+            "sl" => p(f32::from(synth_utils::adsr::SustainLevel::from(f(a1.unwrap())))),
+            "note" => {
+                let n = a1.unwrap().parse::<u8>().unwrap();
+                format!("{} {}", u8::from(Note::from(n)), u8::from(Note::new(n)))
+            }
             "tab" => {
                 let i = a2.unwrap().parse::<usize>().unwrap();
                 p(table(a1.unwrap())[i])
